@@ -355,7 +355,7 @@ pub fn run(env: &Env, rep: &Report) {
     });
     rep.set_exhaustive("exhaustive", true);
     rep.note("exhaustive", format!("all sequences of length <= {} over {} operations x shard counts {:?}", depth, na, shard_counts));
-    par_generated(rep, "random", seq_case, env.tier.pick(4_000, 80_000), w, check_seq);
+    par_generated(rep, "random", seq_case, env.tier.pick(12_000, 150_000), w, check_seq);
 }
 
 pub fn replay(sub: &str, case: Value) -> Option<CaseResult> {
